@@ -231,6 +231,15 @@ def no_failure_run(fns):
         for pat, what in ((r'\bcut\s*\(', 'cut(..)'), (r'Err::Failure\s*\(', 'Err::Failure'), (r'\bErr::Incomplete\s*\(', 'Err::Incomplete')):
             if re.search(pat, src):
                 failures.append(fail(f.name, 'nofailure.%s' % f.name, 'the body uses %s: many0/opt/alt no longer absorb its errors' % what, ['C15'], f))
+    # nom's streaming parsers answer Err::Incomplete at the end of the input, which many0 / opt / alt pass on instead of
+    # absorbing: the whole parser crate must stay on the complete variants
+    for rel, raw in crate_text('sv-parser-parser'):
+        src = front.blank_strings(raw)
+        src = re.sub(r'//[^\n]*', lambda m_: ' ' * len(m_.group(0)), src)
+        checked += 1
+        for m in re.finditer(r'\bstreaming\s*::', src):
+            failures.append(fail('-', 'nofailure.streaming-parser', 'a nom streaming parser is used (Err::Incomplete at the end of the input is not absorbed by many0/opt/alt)', ['C15'],
+                                 Dummy(rel, raw.count('\n', 0, m.start()) + 1)))
     return dict(failures=failures, checked=checked)
 
 
